@@ -262,6 +262,20 @@ pub struct Limits {
     pub recheck_every: u64,
     /// stop after this many distinct violations
     pub max_violations: usize,
+    /// (rule, witness or prefix*) of recorded findings: they do not stop the exploration
+    pub known: Vec<(String, String)>,
+}
+
+impl Limits {
+    fn is_known(&self, v: &Violation) -> bool {
+        self.known.iter().any(|(r, w)| {
+            *r == v.rule
+                && match w.strip_suffix('*') {
+                    Some(pre) => v.witness.starts_with(pre),
+                    None => *w == v.witness,
+                }
+        })
+    }
 }
 
 impl Limits {
@@ -280,6 +294,7 @@ impl Limits {
             wall: Duration::from_secs(wall_s),
             recheck_every: if quick { 257 } else { 4099 },
             max_violations: 20,
+            known: vec![],
         }
     }
 }
@@ -382,7 +397,7 @@ where
                                 std::process::exit(2);
                             }
                         }
-                        let nv = ex.violations.len() as u64;
+                        let nv = ex.violations.iter().filter(|v| !limits.is_known(v)).count() as u64;
                         let d = ch.depth();
                         let want_sample = st.samples.len() < 3 && (k % 997 == 0 || ex.nontrivial);
                         st.absorb(ex, d, want_sample);
@@ -490,6 +505,7 @@ mod tests {
             wall: Duration::from_secs(10),
             recheck_every: 1,
             max_violations: 10,
+            known: vec![],
         };
         let st = explore(&lim, |ch, ex| {
             let a = ch.choose(2);
